@@ -193,6 +193,9 @@ def write_evidence(prop, tier, seed, result: Result, wall, n_viol, n_known, extr
     return path
 
 
+HASHSEED_PROPS = {"C01", "C02", "C03", "C10", "C11", "C13", "C14", "C15"}
+
+
 def main(argv=None):
     ap = argparse.ArgumentParser(prog="check")
     ap.add_argument("prop")
@@ -277,7 +280,39 @@ def main(argv=None):
                 continue
             result.notes.append("stale known finding (did not reproduce in this run): " + e["match"])
             print("note: known finding %r did not reproduce in this run" % e["match"])
-    write_evidence(prop, args.tier, seed, result, wall, n_viol, n_known)
+    # configuration sweep (thorough tier of the value-space checks): the quick exploration once more in fresh
+    # interpreters under other hash seeds - set/dict iteration order inside cattrs' generated disambiguation and
+    # inside the package is part of the configuration a user cannot choose
+    if args.tier == "thorough" and prop in HASHSEED_PROPS and not os.environ.get("LSPVERIF_NO_SWEEP"):
+        import subprocess
+        import tempfile
+        sweep = {}
+        for hs in ("1", "2"):
+            tmp = tempfile.mkdtemp(prefix="lspverif-sweep-", dir=os.environ.get("LSPVERIF_SCRATCH", "/tmp"))
+            env = dict(os.environ)
+            env.update({"PYTHONHASHSEED": hs, "LSPVERIF_NO_SWEEP": "1", "LSPVERIF_EVIDENCE_DIR": tmp, "LSPVERIF_REPLAY_DIR": REPLAY_DIR})
+            try:
+                pr = subprocess.run([sys.executable, "-m", "lspverif", prop, "--tier", "quick", "--workers", str(args.workers)],
+                                    cwd=VERIF, env=env, capture_output=True, text=True, timeout=3600)
+                out_lines = pr.stdout.splitlines()
+                rc = pr.returncode
+            except subprocess.TimeoutExpired:
+                out_lines, rc = [], 0
+                result.notes.append("hash-seed sweep under PYTHONHASHSEED=%s timed out (no verdict for it)" % hs)
+            finally:
+                import shutil
+                shutil.rmtree(tmp, ignore_errors=True)
+            for i, ln in enumerate(out_lines):
+                if ln.startswith("VIOLATION"):
+                    n_viol += 1
+                    print(ln)
+                    if i + 1 < len(out_lines):
+                        print(out_lines[i + 1] + " [under PYTHONHASHSEED=%s]" % hs)
+            if rc not in (0, 1):
+                result.notes.append("hash-seed sweep under PYTHONHASHSEED=%s ended with exit %d (no verdict for it)" % (hs, rc))
+            sweep[hs] = out_lines[-1] if out_lines else ""
+        result.coverage["hash_seed_configurations"] = {"0": "this run", **sweep}
+    write_evidence(prop, args.tier, seed, result, time.time() - t0, n_viol, n_known)
     cov = result.coverage
     print("check %s tier=%s: states=%s transitions=%s traces=%s violations=%d known=%d wall=%.1fs" % (
         prop, args.tier, cov.get("states"), cov.get("transitions"), cov.get("traces_validated_against_impl"),
